@@ -233,6 +233,30 @@ def _mps(case):
                 return result(False, sig="mps|count", msg=f"{label}: num_shots={shots}: total {sum(c.values())}, counter {dict(c)}", outcome="count", states=paths_total, transitions=paths_total)
             if dev is None and len(c) != 1:
                 return result(False, sig="mps|count-constant", msg=f"{label}: num_shots={shots} with a constant script gave {dict(c)}", outcome="count", states=paths_total, transitions=paths_total)
+    # readout errors through MPS.sample itself (qubits and qutrits): scripted draws 0.25 flip exactly the bits whose rate exceeds 0.25
+    import emu_base.utils as U
+
+    for pfp, pfn in ((0.0, 1.0), (0.0, 0.4), (1.0, 0.0), (0.4, 0.3), (0.1, 0.1)):
+
+        def first(probs, ns, k):
+            pp = probs.detach().numpy().astype(float)
+            return [[int(np.flatnonzero(r > 1e-14 * r.sum())[-1])] for r in pp]
+
+        sr = seams.ScriptedRandom(randoms=[0.25] * (n * 2))
+        try:
+            with seams.torch_multinomial(seams.ScriptedMultinomial(answer_fn=first)), seams.module_random(U, sr):
+                c = make().sample(num_shots=2, p_false_pos=pfp, p_false_neg=pfn)
+        except NotImplementedError:
+            if dim == 3 and pfp > 0:
+                continue  # documented refusal: false positives are not defined for qutrits
+            return result(False, sig=f"mps|readout-raises|dim{dim}", msg=f"{label}: sample(p_false_pos={pfp}, p_false_neg={pfn}) raised NotImplementedError", outcome="raise")
+        paths_total += 1
+        with seams.torch_multinomial(seams.ScriptedMultinomial(answer_fn=first)):
+            ideal = make().sample(num_shots=2)
+        (ib,) = ideal.keys()
+        exp = "".join(("1" if (ch == "0" and 0.25 < pfp) else ("0" if (ch == "1" and 0.25 < pfn) else ch)) for ch in ib)
+        if dict(c) != {exp: 2}:
+            return result(False, sig=f"mps|readout|dim{dim}", msg=f"{label}: sample(p_false_pos={pfp}, p_false_neg={pfn}) with readout draws 0.25 on ideal outcome {ib} gave {dict(c)}, expected {{'{exp}': 2}}", outcome="readout", states=paths_total, transitions=paths_total)
     return result(True, outcome=["ok", rnd(born, 5)], states=paths_total, transitions=paths_total, nontrivial=len([p for p in born.values() if p > 1e-9]) > 1)
 
 
